@@ -4,6 +4,30 @@ let dir_s = function Bi -> "bi" | Uni -> "uni"
 let b2 x = if x then "1" else "0"
 let two62 = n_of_string "4611686018427387904"
 let rec handle ws = match ws with
+  | [("vi.try64" | "vi.tryus" | "vi.push") as fam; x] ->
+      let xn = n_of_string x in
+      let r = (match fam with "vi.try64" -> vi_try_from_u64 xn | "vi.tryus" -> vi_try_from_usize xn | _ -> push_id_try_from xn) in
+      let m = (match r with
+        | None -> "err bounds"
+        | Some v -> (match vi_encode v with None -> "panic unreachable" | Some e -> "ok " ^ hex_of_bytes e)) in
+      let s = if N.ltb xn two62 then "ok " ^ hex_of_bytes (rfc_vi_enc (rfc_vi_shortest xn) xn) else "err bounds" in
+      m ^ " | " ^ s
+  | ["vi.wvar"; _; x] ->
+      (* write_var = from_u64(x).unwrap().encode: a panic for x >= 2^62 *)
+      let xn = n_of_string x in
+      let m = (match vi_write_var xn with None -> "panic" | Some e -> "ok " ^ hex_of_bytes e) in
+      let s = if N.ltb xn two62 then "ok " ^ hex_of_bytes (rfc_vi_enc (rfc_vi_shortest xn) xn) else "panic" in
+      m ^ " | " ^ s
+  | ["vi.gvar"; _; chunks] ->
+      let flat = String.concat "" (List.filter (fun c -> c <> "-") (String.split_on_char '.' chunks)) in
+      let bs = bytes_of_hex (if flat = "" then "-" else flat) in
+      let m = (match vi_get_var bs with
+        | (Ok v, rest) -> "ok " ^ string_of_n v ^ " " ^ hex_of_bytes rest
+        | (Err e, rest) -> "err " ^ string_of_n e ^ " " ^ hex_of_bytes rest
+        | (Panic s, _) -> "panic " ^ string_of_n s) in
+      let sp = handle ["vi.dec"; (if flat = "" then "-" else flat)] in
+      let i = (try String.index sp '|' with Not_found -> 0) in
+      m ^ " | " ^ String.trim (String.sub sp (i + 1) (String.length sp - i - 1))
   | ["vi.decc"; chunks] ->
       let flat = String.concat "" (List.filter (fun c -> c <> "-") (String.split_on_char '.' chunks)) in
       handle ["vi.dec"; (if flat = "" then "-" else flat)]
